@@ -28,7 +28,7 @@ PROPERTY = 'C15'
 TOL = 1e-3
 
 META = {
-    'bounds': {'quick': 'state preservation + second call on every function object; every function in dimensions 1..3 where the constructor accepts them (Michalewicz 2,5,10; fixed-dimension functions as declared)',
+    'bounds': {'quick': 'concrete tied-coordinate samples with the bound clause; state preservation + second call on every function object; every function in dimensions 1..3 where the constructor accepts them (Michalewicz 2,5,10; fixed-dimension functions as declared)',
                'thorough': 'adds dimensions 4-6 for the polynomial / per-coordinate functions'},
     'stubs': ['numpy ufuncs on proxies (np.cos/sin/exp/sqrt/fabs/abs) -> uninterpreted functions + lemma library',
               'random.uniform (XinSheYang-3) -> fresh real in [0,1]',
